@@ -336,8 +336,8 @@ Definition strip_derived (d : Key) : Key :=
                      k_format := k_format d; k_versions := k_versions d |}
   | _ => d
   end.
-(* one key of one segment: returns the new set and the lines written *)
-Definition write_key (avail : list xkey) (k : xkey) : list xkey * list str :=
+(* one key of one segment: returns the new set and the EXT-X-KEY tags written *)
+Definition write_key (avail : list xkey) (k : xkey) : list xkey * list xkey :=
   match k with
   | Some d =>
       let avail := set_remove None avail in
@@ -350,10 +350,10 @@ Definition write_key (avail : list xkey) (k : xkey) : list xkey * list str :=
                                         | Some o => same_fmt o d' && negb (xkey_eqb y key)
                                         | None => false end) avail in
         let avail := match old with Some o => set_remove o avail | None => avail end in
-        (avail, [print_xkey key])
-  | None => ([None], [print_xkey None])
+        (avail, [key])
+  | None => ([None], [None])
   end.
-Fixpoint write_keys (avail : list xkey) (ks : list xkey) : list xkey * list str :=
+Fixpoint write_keys (avail : list xkey) (ks : list xkey) : list xkey * list xkey :=
   match ks with
   | [] => (avail, [])
   | k :: r => let '(a1, t1) := write_key avail k in
@@ -367,14 +367,17 @@ Definition stale_keys (avail : list xkey) (keys : list xkey) : bool :=
                          | Some o => negb (existsb (fun k => match k with Some kk => same_fmt kk o | None => false end) keys)
                          | None => false
                          end) avail.
+(* the key tags written before one segment, and the writer's set afterwards *)
+Definition segment_key_events (avail : list xkey) (keys : list xkey) : list xkey * list xkey :=
+  let stale := stale_keys avail keys in
+  let '(a, t) := write_keys (if stale then [] else avail) keys in
+  (a, (if stale then [None] else []) ++ t).
 Fixpoint segments_lines (avail : list xkey) (segs : list Segment) : list str :=
   match segs with
   | [] => []
   | s :: r =>
-      let stale := stale_keys avail (sg_keys s) in
-      let avail0 := if stale then [] else avail in
-      let '(a, t) := write_keys avail0 (sg_keys s) in
-      (if stale then [print_xkey None] else []) ++ t ++ segment_lines s ++ segments_lines a r
+      let '(a, ev) := segment_key_events avail (sg_keys s) in
+      map print_xkey ev ++ segment_lines s ++ segments_lines a r
   end.
 
 Definition version_line (rv : N) : list str :=
